@@ -120,12 +120,14 @@ def build(init, hist):
            'find_extrema_kwargs': copy.deepcopy(FEK_DEFAULT), 'return_samples': init.get('return_samples', True)}
     bm = Bycycle(**copy.deepcopy(init))
     sid, table_kind = None, None
+    arrs = {}
     for op in hist:
         kind = op[0]
         if kind == 'fit':
             sig = SIGS[op[1]]
             try:
-                bm.fit(np.array(sig), FS, FR)
+                # the caller keeps ONE array object per recording and passes it to every fit of the history
+                bm.fit(arrs.setdefault(op[1], np.array(sig)), FS, FR)
             except Exception as e:      # noqa
                 return bm, led, sid, ('raise', 'fit raised %s: %s' % (type(e).__name__, str(e)[:150]))
             sid, table_kind = op[1], led['burst_method']
@@ -287,13 +289,14 @@ def gbuild(init, hist):
     led = {'center_extrema': init['center_extrema'], 'burst_method': 'cycles', 'thresholds': expand(copy.deepcopy(init['thresholds']), 'cycles')}
     bg = BycycleGroup(center_extrema=init['center_extrema'], thresholds=copy.deepcopy(init['thresholds']))
     last = None
+    garrs = {}
     for op in hist:
         if op[0] in ('fit2', 'fit3', 'fit2big', 'fit3big'):
             sigs = {'fit2': A2, 'fit3': A3, 'fit2big': A2B, 'fit3big': A3B}[op[0]]
             op = [op[0][:4], op[1]]
             axis = tuple(op[1]) if isinstance(op[1], list) else op[1]
             try:
-                bg.fit(sigs.copy(), FS, FR, axis=axis, n_jobs=1)
+                bg.fit(garrs.setdefault(op[0] + str(sigs.shape), sigs.copy()), FS, FR, axis=axis, n_jobs=1)      # one array object per recording set
             except Exception as e:      # noqa
                 return bg, led, last, ('raise', 'BycycleGroup.fit raised %s: %s' % (type(e).__name__, str(e)[:150]))
             last = (op[0], repr(axis))
